@@ -41,7 +41,7 @@ type c08Case struct {
 	DeadlineNs  int64  `json:"deadline_ns,omitempty"`
 }
 
-var c08Comps = []string{"retry", "retry", "retry>cb", "retry>bh", "fallback>retry", "retry>fallback", "hedge", "retry>hedge", "hedge>retry", "rl!>retry", "retry>rl!", "bh!>retry", "retry>bh!", "rl!", "hedge~", "retry>hedge~"}
+var c08Comps = []string{"retry", "retry", "retry>cb", "retry>bh", "fallback>retry", "retry>fallback", "hedge", "retry>hedge", "hedge>retry", "rl!>retry", "retry>rl!", "bh!>retry", "retry>bh!", "rl!", "hedge~", "retry>hedge~", "T>retry"}
 
 func genC08(r *rand.Rand) c08Case {
 	cs := c08Case{Comp: c08Comps[r.IntN(len(c08Comps))], Source: vk.Pick(r, "ctx", "ctx", "deadline", "timeout", "async", "async")}
@@ -217,6 +217,8 @@ func c08Run(cs c08Case, twin bool) *c08Obs {
 			pols = append(pols, hedge)
 		case "hedge~":
 			pols = append(pols, hedgeQuick)
+		case "T": // a Timeout that never expires: what is inside runs on the Timeout's child execution
+			pols = append(pols, timeout.With[int](30*time.Second))
 		case "fallback":
 			if len(pols) == 0 {
 				pols = append(pols, fbOuter)
